@@ -698,6 +698,10 @@ fn prog_ops_lit(group: &str, t: NT, ops: &[(&'static str, &'static str)], lits: 
         for (l, op) in ops {
             let rb = if is_cmp(l) { 8 } else { t.bits };
             s.push_str(&format!("        {{ x := a; r := x {op} {c}; {} }}\n", print_stmt(rb)));
+            // the compound form `x op= literal` goes through its own path in the code generator
+            if !is_cmp(l) {
+                s.push_str(&format!("        {{ x := a; x {op}= {c}; r := x; {} }}\n", print_stmt(rb)));
+            }
         }
     }
     s.push_str("        i += 1;\n    }\n    fflush(0);\n}\n\n");
@@ -707,6 +711,9 @@ fn prog_ops_lit(group: &str, t: NT, ops: &[(&'static str, &'static str)], lits: 
         for c in lits {
             for (l, _) in ops {
                 points.push(Point::Bin { t, op: l, a: *x, b: *c });
+                if !is_cmp(l) {
+                    points.push(Point::Bin { t, op: l, a: *x, b: *c });
+                }
             }
         }
     }
